@@ -7,7 +7,7 @@ if ! git diff --quiet; then echo "/repo has uncommitted changes"; exit 9; fi
 git apply "$patch" || { echo "patch does not apply"; exit 9; }
 cd /verif
 for p in "$@"; do
-  out=$(python3 bin/check.py "$p" 2>&1); rc=$?
+  out=$(python3 bin/check.py "$p" --no-evidence 2>&1); rc=$?
   echo "== $p rc=$rc"; echo "$out" | grep -E "^(violated|VIOLATION|UNDECIDED|OK|KNOWN)" | head -8
 done
 git -C /repo checkout -- . 
